@@ -200,6 +200,20 @@ def patterns():
     ps.append(("random_twice", prog([nd("Random", [], t=B), nd("Random", [], t=B), nd("Add", [1, 2])])))
     ps.append(("prf_same_key", prog([nd("Random", [], t=KEY), nd("PRF", [1], iv=1, t=B), nd("PRF", [1], iv=2, t=B), nd("PRF", [1], iv=1, t=B), nd("CreateTuple", [2, 3, 4])])))
     ps.append(("prf_dead", prog([inp(B), nd("Random", [], t=KEY), nd("PRF", [2], iv=1, t=B), nd("PRF", [2], iv=2, t=B), nd("Add", [1, 3])])))
+    M22 = A("b", [2, 2])
+    for opn in ("Add", "Subtract", "Multiply"):
+        cst = "Ones" if opn == "Multiply" else "Zeros"
+        ps.append(("%s_neutral_broadcast_r" % opn, prog([inp(B), nd(cst, [], t=BA), nd(opn, [1, 2]), nd("Sum", [3], axes=[0])])))
+        ps.append(("%s_neutral_broadcast_l" % opn, prog([inp(B), nd(cst, [], t=BA), nd(opn, [2, 1]), nd("Sum", [3], axes=[0])])))
+        ps.append(("%s_neutral_same_shape" % opn, prog([inp(BA), nd(cst, [], t=BA), nd(opn, [1, 2]), nd(opn, [2, 1]), nd("CreateTuple", [3, 4])])))
+    ps.append(("neutral_u8", prog([inp(U), nd("Zeros", [], t=U), nd("Ones", [], t=U), nd("Add", [1, 2]), nd("Multiply", [4, 3]), nd("Subtract", [2, 5])])))
+    for opn in ("Dot", "Matmul"):
+        ps.append(("%s_commutator" % opn, prog([inp(M22), inp(M22), nd(opn, [1, 2]), nd(opn, [2, 1]), nd("Subtract", [3, 4])])))
+    ps.append(("gemm_swapped", prog([inp(M22), inp(M22), nd("Gemm", [1, 2], ta=False, tb=True), nd("Gemm", [2, 1], ta=False, tb=True), nd("Subtract", [3, 4])])))
+    ps.append(("sub_swapped", prog([inp(B), inp(B), nd("Subtract", [1, 2]), nd("Subtract", [2, 1]), nd("CreateTuple", [3, 4])])))
+    ps.append(("mixmul_swapped_types", prog([inp(U), inp(B), inp(B), nd("MixedMultiply", [1, 2]), nd("MixedMultiply", [1, 3]), nd("Subtract", [4, 5])])))
+    ps.append(("stack_order", prog([inp(B), inp(B), nd("Stack", [1, 2], sh=[2]), nd("Stack", [2, 1], sh=[2]), nd("Subtract", [3, 4])])))
+    ps.append(("concat_order", prog([inp(BA), inp(BA), nd("Concatenate", [1, 2], axis=0), nd("Concatenate", [2, 1], axis=0), nd("Subtract", [3, 4])])))
     ps.append(("send_chain", prog([inp(B), dict(nd("NOP", [1]), sends=[[0, 1]]), dict(nd("NOP", [2]), sends=[[1, 2]]), nd("Add", [3, 3])])))
     return ps
 
